@@ -547,10 +547,13 @@ func lemmaHandOverThenCreate(rt *esdtNFTCreateRoleTransfer, cr *esdtNFTCreate, o
 //@   ensures[C06] err == nil ==> onlyRcpt(out, dst) && out.GasRemaining + fwdGas(out, dst) <= vmInput.GasProvided
 //@   ensures[C16] err == nil && !isNil(acntSnd) ==> out.GasRemaining + fwdGas(out, dst) == vmInput.GasProvided - e.funcGasCost
 //@   ensures[C17] err == nil ==> failed == old(failed)
-//@   ensures[C01,C02] err == nil ==> q > 0 && onlyChanged2(St, old(St), snd, K, dst, K)
+//@   ensures[C01,C02] err == nil ==> len(vmInput.Arguments) >= 2 && q > 0 && onlyChanged2(St, old(St), snd, K, dst, K)
 //@   ensures[C01,C02] err == nil && !readFailed && !isNil(acntSnd) ==> val(old(St), snd, K) >= q
 //@   ensures[C01,C02] err == nil && !readFailed && snd != dst ==> val(St, snd, K) == val(old(St), snd, K) - ite(isNil(acntSnd), 0, q) && val(St, dst, K) == val(old(St), dst, K) + ite(isNil(acntDst), 0, q)
 //@   ensures[C01,C02] err == nil && !readFailed && snd == dst ==> val(St, snd, K) == val(old(St), snd, K) - ite(isNil(acntSnd), 0, q) + ite(isNil(acntDst), 0, q)
+//@   ensures[C01,C02,C05] err == nil && isNil(acntDst) && snd != dst ==> St[dst][K] == old(St)[dst][K]
+//@   ensures old(readFailed) ==> readFailed
+//@   ensures[C01,C02,C05] err == nil && isNil(acntSnd) && snd != dst ==> St[snd][K] == old(St)[snd][K]
 //@   ensures[C04] err == nil && !readFailed && !vmInput.ReturnCallAfterError && !isNil(acntSnd) && snd != ESDTSC() ==> !frozen(old(St), snd, K) && !paused(old(St), K)
 //@   ensures[C04] err == nil && !readFailed && !vmInput.ReturnCallAfterError && !isNil(acntDst) && dst != ESDTSC() && snd != dst && snd != SYS() ==> !frozen(old(St), dst, K) && !paused(old(St), K)
 //@   ensures[C03,C04] err == nil && !readFailed ==> frozenKept(St, old(St))
@@ -562,6 +565,51 @@ func lemmaHandOverThenCreate(rt *esdtNFTCreateRoleTransfer, cr *esdtNFTCreate, o
 //@   ensures[C15] err == nil ==> WFvalues(St)
 //@   ensures[C10,C13] vmInput != nil ==> len(vmInput.Arguments) == old(len(vmInput.Arguments)) && forall(j, int, 0 <= j && j < len(vmInput.Arguments) ==> seq(vmInput.Arguments[j]) == old(seq(vmInput.Arguments[j]))) && seq(vmInput.CallerAddr) == old(seq(vmInput.CallerAddr)) && seq(vmInput.RecipientAddr) == old(seq(vmInput.RecipientAddr))
 //@   modifies St, failed, readFailed, loadFailed
+
+// lemmaESDTTransferDelivered (C01, C10: sender side composed with destination side through the emitted message).
+// A contract on the sender shard executes ESDTTransfer towards an account of another shard; the data string of the
+// emitted output transfer is parsed with the real call-arguments parser and handed, with the sender as caller, to
+// the same function on the destination side. Then: the emitted message parses, names this function, and - when
+// both executions succeed - the destination is credited exactly what the sender was debited and nothing else
+// changed; when the destination side refuses without a dependency fault, it is for a listed world-state reason.
+// What stays outside: that the node delivers the message exactly once, to this function, built from the parser's
+// result as below (A16).
+func lemmaESDTTransferDelivered(e *esdtTransfer, snd, dst vmcommon.UserAccountHandler, in, in2 *vmcommon.ContractCallInput) (emitted bool, fn string, err1, perr, err2 error) {
+	out, err1 := e.ProcessBuiltinFunction(snd, nil, in)
+	if err1 != nil {
+		return false, "", err1, nil, nil
+	}
+	oa, ok := out.OutputAccounts[string(in.RecipientAddr)]
+	if !ok {
+		return false, "", nil, nil, nil
+	}
+	fn, args, perr := parsers.NewCallArgsParser().ParseData(string(oa.OutputTransfers[0].Data))
+	if perr != nil {
+		return true, fn, nil, perr, nil
+	}
+	in2.Arguments = args
+	_, err2 = e.ProcessBuiltinFunction(nil, dst, in2)
+	return true, fn, nil, nil, err2
+}
+
+//@ func lemmaESDTTransferDelivered
+//@   view tok = seq(in.Arguments[0])
+//@   view q = beval(seq(in.Arguments[1]))
+//@   view a = seq(in.CallerAddr)
+//@   view b = seq(in.RecipientAddr)
+//@   view K = Kesdt(seq(in.Arguments[0]))
+//@   requires e != nil && locksFree() && !isNil(e.marshalizer) && !isNil(e.pauseHandler) && !isNil(e.payableHandler) && !isNil(e.shardCoordinator) && esdtPrefix(e.keyPrefix)
+//@   requires in != nil && in2 != nil && in != in2 && !isNil(snd) && !isNil(dst) && sndIsCaller(snd, in) && dstIsRecipient(dst, in2) && WFvalues(St) && argBounds(in)
+//@   requires seq(in2.CallerAddr) == seq(in.CallerAddr) && seq(in2.RecipientAddr) == seq(in.RecipientAddr) && in2.CallValue != nil && bigval(in2.CallValue) == 0 && a != b && a != SYS()
+//@   at +13 assert len(args) == len(in.Arguments) && len(args) >= 2
+//@   at +13 assert seq(args[0]) == seq(in.Arguments[0]) && seq(args[1]) == seq(in.Arguments[1])
+//@   at +13 assert (!readFailed ==> val(St, a, K) == val(old(St), a, K) - q) && St[b][K] == old(St)[b][K]
+//@   ensures[C01,C10] emitted ==> perr == nil && seq(fn) == "ESDTTransfer"
+//@   ensures[C01] emitted && err2 == nil && !readFailed ==> val(St, a, K) == val(old(St), a, K) - q && q > 0
+//@   ensures[C01] emitted && err2 == nil && !readFailed ==> val(St, b, K) == val(old(St), b, K) + q
+//@   ensures[C01] emitted && err2 == nil ==> onlyChanged2(St, old(St), a, K, b, K)
+//@   ensures[C01,C10] emitted && err2 != nil && !failed && !readFailed && shardOf(b) != 4294967295 ==> (mustVerify(in2, 2) && !payable(b)) || (len(old(St)[b][K]) != 0 && dType(old(St)[b][K]) != 0) || (!in2.ReturnCallAfterError && b != ESDTSC() && (frozen(old(St), b, K) || paused(old(St), K)))
+//@   modifies St, failed, readFailed, loadFailed, in2.Arguments, new([]string), new([][]byte)
 
 // ---- ESDTNFTTransfer --------------------------------------------------------------------------------------------------------------------
 // Sender-side execution: CallerAddr == RecipientAddr, destination = Arguments[3].
@@ -916,7 +964,8 @@ func lemmaMultiTransferActiveAtConstruction(funcGasCost uint64, m vmcommon.Marsh
 //@ func lemmaMultiTransferActiveAtConstruction
 //@   results e, err
 //@   ensures[C18] err == nil ==> e != nil && e.baseEnabled != nil && e.baseEnabled.activationEpoch == activationEpoch && (e.baseEnabled.flagActivated.value == 1) == (regEpoch >= activationEpoch)
-//@   modifies new(builtInFunctions.esdtNFTMultiTransfer), new(builtInFunctions.baseEnabled), new(builtInFunctions.disabledPayableHandler)
+//@   ensures[C18] err == nil ==> subscribed[payload(n)][payload(e)]
+//@   modifies subscribed, new(builtInFunctions.esdtNFTMultiTransfer), new(builtInFunctions.baseEnabled), new(builtInFunctions.disabledPayableHandler)
 
 func lemmaAddUriActiveAtConstruction(funcGasCost uint64, g vmcommon.BaseOperationCost, m vmcommon.Marshalizer, p vmcommon.ESDTPauseHandler, r vmcommon.ESDTRoleHandler, activationEpoch uint32, n vmcommon.EpochNotifier) (*esdtNFTAddUri, error) {
 	return NewESDTNFTAddUriFunc(funcGasCost, g, m, p, r, activationEpoch, n)
@@ -925,7 +974,8 @@ func lemmaAddUriActiveAtConstruction(funcGasCost uint64, g vmcommon.BaseOperatio
 //@ func lemmaAddUriActiveAtConstruction
 //@   results e, err
 //@   ensures[C18] err == nil ==> e != nil && e.baseEnabled != nil && e.baseEnabled.activationEpoch == activationEpoch && (e.baseEnabled.flagActivated.value == 1) == (regEpoch >= activationEpoch)
-//@   modifies new(builtInFunctions.esdtNFTAddUri), new(builtInFunctions.baseEnabled)
+//@   ensures[C18] err == nil ==> subscribed[payload(n)][payload(e)]
+//@   modifies subscribed, new(builtInFunctions.esdtNFTAddUri), new(builtInFunctions.baseEnabled)
 
 func lemmaUpdateAttributesActiveAtConstruction(funcGasCost uint64, g vmcommon.BaseOperationCost, m vmcommon.Marshalizer, p vmcommon.ESDTPauseHandler, r vmcommon.ESDTRoleHandler, activationEpoch uint32, n vmcommon.EpochNotifier) (*esdtNFTupdate, error) {
 	return NewESDTNFTUpdateAttributesFunc(funcGasCost, g, m, p, r, activationEpoch, n)
@@ -934,7 +984,8 @@ func lemmaUpdateAttributesActiveAtConstruction(funcGasCost uint64, g vmcommon.Ba
 //@ func lemmaUpdateAttributesActiveAtConstruction
 //@   results e, err
 //@   ensures[C18] err == nil ==> e != nil && e.baseEnabled != nil && e.baseEnabled.activationEpoch == activationEpoch && (e.baseEnabled.flagActivated.value == 1) == (regEpoch >= activationEpoch)
-//@   modifies new(builtInFunctions.esdtNFTupdate), new(builtInFunctions.baseEnabled)
+//@   ensures[C18] err == nil ==> subscribed[payload(n)][payload(e)]
+//@   modifies subscribed, new(builtInFunctions.esdtNFTupdate), new(builtInFunctions.baseEnabled)
 
 // ---- guarded-by discipline (C19): cost fields are read under the read lock and written under the write lock ----
 
@@ -1136,8 +1187,9 @@ func lemmaFlagBytesRoundTrip(paused bool, frozen bool, b []byte) (bool, bool, []
 //@   ensures[C13,C18,C19] err == nil ==> esdtPrefix(ptr(regVal(payload(c), "ESDTNFTUpdateAttributes"), "*builtInFunctions.esdtNFTupdate").keyPrefix)
 //@   ensures[C13,C18,C19] err == nil ==> esdtPrefix(ptr(regVal(payload(c), "ESDTNFTAddURI"), "*builtInFunctions.esdtNFTAddUri").keyPrefix)
 //@   ensures[C13,C18,C19] err == nil ==> esdtPrefix(ptr(regVal(payload(c), "MultiESDTNFTTransfer"), "*builtInFunctions.esdtNFTMultiTransfer").keyPrefix)
+//@   ensures[C18] err == nil ==> subscribed[payload(b.epochNotifier)][regVal(payload(c), "MultiESDTNFTTransfer")] && subscribed[payload(b.epochNotifier)][regVal(payload(c), "ESDTNFTAddURI")] && subscribed[payload(b.epochNotifier)][regVal(payload(c), "ESDTNFTUpdateAttributes")]
 //@   ensures[C18,C16] err == nil ==> regOK(payload(c)) && forall(k, bseq, regHas(payload(c), k) ==> implements(regTyp(payload(c), k), typeid("vmcommon.BuiltinFunction")) && regVal(payload(c), k) != 0)
-//@   modifies b.builtInFunctions, new(builtInFunctions.functionContainer), new(container.MutexMap), newmap(type:container.MutexMap.values)
+//@   modifies subscribed, b.builtInFunctions, new(builtInFunctions.functionContainer), new(container.MutexMap), newmap(type:container.MutexMap.values)
 
 // lemmaMultiTransferShapeAccepted (C01, C10): the message shape the sender side of MultiESDTNFTTransfer emits
 // (the count n >= 1, then 3n item arguments, then k >= 0 call arguments; contract of
